@@ -37,6 +37,6 @@ Print Assumptions C03_census_compositional.
    blanks trimmed *)
 From SV Require Fmt0 Fmt0Proof.
 Theorem C03_L0_comments_of_the_output_are_those_of_the_program : forall c p,
-  Census.census (Fmt0.pprog c (Fmt0.nprog p)) = Fmt0Proof.lc (Fmt0Proof.coms_b p).
+  Census.census (Fmt0.pprog c (Fmt0.norm0 c p)) = Fmt0Proof.lc (Fmt0Proof.coms_b p).
 Proof. exact Fmt0Proof.format0_comments_exact. Qed.
 Print Assumptions C03_L0_comments_of_the_output_are_those_of_the_program.
